@@ -7,7 +7,7 @@ use crate::vx_gram::*;
 use crate::vx_ord::*;
 use crate::vx_hash::*;
 use crate::vx_utf8::*;
-broadcast use {vstd::std_specs::hash::group_hash_axioms, crate::vx_hash_ax::group_key_models, crate::vx_ordax::group_lawful, crate::data::oset::axiom_yielded_oset, crate::vx_hash::group_string_keys};
+broadcast use {vstd::std_specs::hash::group_hash_axioms, crate::vx_hash_ax::group_key_models, crate::vx_ordax::group_lawful, crate::data::oset::axiom_yielded_oset, crate::vx_ord::axiom_yielded_vec, crate::vx_hash::group_string_keys};
 //@]
 use crate::data::{
     machine::*, unnormalized_machine::UnnormalizedMachine, validated_file::*,
@@ -77,6 +77,79 @@ spec fn fa_of(m: FsMap) -> FA {
 spec fn is_first_map(m: FsMap, g: Seq<Rule>) -> bool {
     &&& forall|a: Seq<char>| #[trigger] (fa_of(m).nul)(a) <==> nullable(g, a)
     &&& forall|a: Seq<char>, t: DollarlessTerminalName| #[trigger] (fa_of(m).fst)(a, t) <==> in_first(g, a, t)
+}
+
+/// every nonterminal of the sequence is a key of the map
+spec fn syms_covered(m: FsMap, syms: Seq<Symbol>) -> bool {
+    forall|i: int| 0 <= i < syms.len() && (#[trigger] syms[i]) is Nonterminal ==> fs_has(m, sym_name(syms[i]))
+}
+
+impl<'a> ImmutContext<'a> {
+    /// the augmented grammar of this context
+    spec fn gr(&self) -> Gram<'a> { Gram { g: self.rules@, start: self.start_nonterminal_name } }
+    /// the first-set map is FIRST/nullable of the rules and has an entry for every nonterminal that occurs
+    spec fn wf(&self) -> bool {
+        fs_wf(self.first_sets@) && fs_covers(self.first_sets@, self.rules@) && is_first_map(self.first_sets@, self.rules@)
+    }
+}
+
+/// the first-set map and the least fixpoint agree on every symbol sequence
+proof fn lemma_first_map_seq(m: FsMap, g: Seq<Rule>, syms: Seq<Symbol>)
+    requires is_first_map(m, g)
+    ensures fa_seq_nullable(fa_of(m), syms) == seq_nullable(g, syms),
+        forall|t: DollarlessTerminalName| fa_seq_first(fa_of(m), syms, t) == seq_in_first(g, syms, t),
+{
+    assert(fa_eq(fa_of(m), fa_lfp(g)));
+    lemma_fa_eq_seq(fa_of(m), fa_lfp(g), syms);
+}
+
+/// the symbols of a well-formed item's rule are all known to the first-set map
+proof fn lemma_rhs_covered(ctx: &ImmutContext, it: StateItem, from: int)
+    requires ctx.wf(), item_wf(ctx.gr(), it), 0 <= from, it.rule_index is Augmented ==> from >= 1,
+    ensures syms_covered(ctx.first_sets@, rhs_from(ctx.gr(), it, from)),
+        it.rule_index is Original ==> it.rule_index->Original_0 < ctx.rules@.len(),
+{
+    let syms = rhs_from(ctx.gr(), it, from);
+    match it.rule_index {
+        RuleIndex::Original(ri) => {
+            let rhs = rule_rhs(ctx.rules@[ri as int]);
+            assert forall|i: int| 0 <= i < syms.len() && (#[trigger] syms[i]) is Nonterminal implies fs_has(ctx.first_sets@, sym_name(syms[i])) by {
+                assert(syms[i] == rhs[from + i]);
+                assert(rule_rhs(ctx.rules@[ri as int])[from + i] is Nonterminal);
+            }
+        }
+        RuleIndex::Augmented => {
+            // only the empty rest (dot advanced past `start`) is ever looked at; the start name itself need not be a key
+            assert(syms =~= Seq::<Symbol>::empty());
+        }
+    }
+}
+
+proof fn lemma_item_rhs_len(ctx: &ImmutContext, it: StateItem)
+    requires item_wf(ctx.gr(), it)
+    ensures after_dot(ctx.gr(), it) is Some ==> it.dot < item_rhs(ctx.gr(), it).len() && it.dot + 1 <= usize::MAX && item_wf(ctx.gr(), advanced(it)),
+        item_rhs(ctx.gr(), advanced(it)) == item_rhs(ctx.gr(), it),
+        forall|k: int| rhs_from(ctx.gr(), advanced(it), k) == rhs_from(ctx.gr(), it, k),
+{
+    if let RuleIndex::Original(ri) = it.rule_index {
+        match *ctx.rules@[ri as int].fieldset {
+            Fieldset::Empty => {}
+            Fieldset::Named(n) => { vstd::std_specs::vec::axiom_spec_len(&n.fields); }
+            Fieldset::Tuple(t) => { vstd::std_specs::vec::axiom_spec_len(&t.fields); }
+        }
+    }
+}
+
+/// t is exactly the LR(1) closure of s, and all its items are well-formed
+spec fn is_closure_of(gr: Gram, s: Set<StateItem>, t: Set<StateItem>) -> bool {
+    &&& forall|x: StateItem| #[trigger] t.contains(x) <==> in_closure(gr, s, x)
+    &&& forall|x: StateItem| #[trigger] t.contains(x) ==> item_wf(gr, x)
+}
+
+proof fn lemma_closure_step_wf(gr: Gram, i: StateItem, x: StateItem)
+    requires closure_step(gr, i, x)
+    ensures item_wf(gr, x)
+{
 }
 
 /// abstract value of one first set
@@ -360,18 +433,106 @@ impl ImmutContext<'_> {
     //@[ termination of the closure worklist loop is NOT proved (listed under C07 not_covered)
     #[verifier::exec_allows_no_decreases_clause]
     //@]
-    fn get_closure(&self, items: &[StateItem]) -> State {
+    fn get_closure(&self, items: &[StateItem]) -> /*@[*/(r: /*@]*/State/*@[*/)/*@]*/
+        //@[ C17 C07 ImmutContext::get_closure: exactly the LR(1) closure of the given items (worklist; two-sided)
+        requires self.wf(), forall|i: int| 0 <= i < items@.len() ==> item_wf(self.gr(), #[trigger] items@[i]),
+        ensures r.items.wf(), is_closure_of(self.gr(), items@.to_set(), r.items@),
+        //@]
+    {
+        //@[ proof
+        let ghost gr = self.gr();
+        let ghost s0 = items@.to_set();
+        proof { assert forall|x: StateItem| s0.contains(x) implies item_wf(gr, x) by { let i = choose|i: int| 0 <= i < items@.len() && items@[i] == x; assert(item_wf(gr, items@[i])); } }
+        //@]
         let mut queue: VecDeque<StateItem> = /*@{ T13_queue_init*//*@- items.iter().cloned().collect() *//*@|*/__vx_queue_init(items)/*@}*/;
         let mut items = Oset::new();
+        //@[ proof
+        let ghost mut gq = queue@;
+        proof {
+            crate::data::oset::lemma_empty_oset(items);
+            assert forall|i: int| 0 <= i < queue@.len() implies in_closure(gr, s0, #[trigger] queue@[i]) && item_wf(gr, queue@[i]) by {
+                assert(s0.contains(queue@[i]));
+                lemma_closure_base(gr, s0, queue@[i]);
+            }
+            assert forall|x: StateItem| #[trigger] s0.contains(x) implies queue@.contains(x) by {}
+        }
+        //@]
 
-        while let Some(next) = queue.pop_front() {
+        while let Some(next) = queue.pop_front()
+            //@[ C17 worklist invariant: collected and queued items are in the closure; the start items and every successor of a collected item are collected or queued
+            invariant
+                self.wf(), gr == self.gr(), items.wf(), gq == queue@,
+                forall|x: StateItem| #[trigger] items@.contains(x) ==> in_closure(gr, s0, x) && item_wf(gr, x),
+                forall|i: int| 0 <= i < queue@.len() ==> in_closure(gr, s0, #[trigger] queue@[i]) && item_wf(gr, queue@[i]),
+                forall|x: StateItem| #[trigger] s0.contains(x) ==> items@.contains(x) || queue@.contains(x),
+                forall|i: StateItem, x: StateItem| items@.contains(i) && #[trigger] closure_step(gr, i, x) ==> items@.contains(x) || queue@.contains(x),
+            ensures
+                self.wf(), items.wf(), queue@.len() == 0,
+                forall|x: StateItem| #[trigger] items@.contains(x) ==> in_closure(gr, s0, x) && item_wf(gr, x),
+                forall|x: StateItem| #[trigger] s0.contains(x) ==> items@.contains(x),
+                forall|i: StateItem, x: StateItem| items@.contains(i) && #[trigger] closure_step(gr, i, x) ==> items@.contains(x),
+            //@]
+        {
+            //@[ proof
+            let ghost q_before = gq;   // the queue before this pop
+            let ghost q1 = queue@;
+            let ghost items0 = items@;
+            proof {
+                assert(q_before.len() > 0 && q_before[0] == next && q1 =~= q_before.subrange(1, q_before.len() as int));
+                assert forall|x: StateItem| q_before.contains(x) implies x == next || q1.contains(x) by {
+                    let i = choose|i: int| 0 <= i < q_before.len() && q_before[i] == x;
+                    if i > 0 { assert(q1[i - 1] == x); }
+                }
+                assert forall|i: int| 0 <= i < q1.len() implies in_closure(gr, s0, #[trigger] q1[i]) && item_wf(gr, q1[i]) by { assert(q1[i] == q_before[i + 1]); }
+                assert(in_closure(gr, s0, q_before[0]) && item_wf(gr, q_before[0]));
+                gq = queue@;
+            }
+            //@]
             if items.contains(&next) {
                 continue;
             }
 
             self.enqueue_closure_implied_items(&mut queue, &next);
             items.insert(next);
+            //@[ proof
+            proof {
+                let added = choose|added: Seq<StateItem>| #![auto] queue@ == q1 + added
+                    && forall|x: StateItem| #[trigger] added.contains(x) <==> closure_step(gr, next, x);
+                assert forall|x: StateItem| q1.contains(x) implies queue@.contains(x) by {
+                    let i = choose|i: int| 0 <= i < q1.len() && q1[i] == x; assert(queue@[i] == x);
+                }
+                assert forall|x: StateItem| added.contains(x) implies queue@.contains(x) by {
+                    let i = choose|i: int| 0 <= i < added.len() && added[i] == x; assert(queue@[q1.len() + i] == x);
+                }
+                assert forall|i: int| 0 <= i < queue@.len() implies in_closure(gr, s0, #[trigger] queue@[i]) && item_wf(gr, queue@[i]) by {
+                    if i < q1.len() { assert(queue@[i] == q1[i]); }
+                    else {
+                        assert(queue@[i] == added[i - q1.len()]);
+                        assert(added.contains(added[i - q1.len()]));
+                        lemma_closure_step(gr, s0, next, queue@[i]);
+                        lemma_closure_step_wf(gr, next, queue@[i]);
+                    }
+                }
+                assert forall|i: StateItem, x: StateItem| items@.contains(i) && #[trigger] closure_step(gr, i, x) implies items@.contains(x) || queue@.contains(x) by {
+                    if i == next { assert(added.contains(x)); }
+                    else {
+                        assert(items0.contains(i));
+                        assert(items0.contains(x) || q_before.contains(x));
+                        if !items0.contains(x) { if x != next { assert(q1.contains(x)); } }
+                    }
+                }
+                gq = queue@;
+            }
+            //@]
         }
+        //@[ proof
+        proof {
+            assert forall|x: StateItem| in_closure(gr, s0, x) implies items@.contains(x) by {
+                let n = choose|n: nat| closure_reach(gr, s0, n, x);
+                lemma_closure_least(gr, s0, items@, n);
+            }
+        }
+        //@]
 
         State { items }
     }
@@ -380,13 +541,42 @@ impl ImmutContext<'_> {
         &self,
         queue: &mut VecDeque<StateItem>,
         implicator: &StateItem,
-    ) {
-        for implied in self.get_closure_implied_items(implicator) {
+    )
+        //@[ C17 enqueue_closure_implied_items: appends exactly the closure-step successors of the implicator
+        requires self.wf(), item_wf(self.gr(), *implicator),
+        ensures exists|added: Seq<StateItem>| #![auto] final(queue)@ == old(queue)@ + added
+            && forall|x: StateItem| #[trigger] added.contains(x) <==> closure_step(self.gr(), *implicator, x),
+        //@]
+    {
+        //@[ proof
+        let ghost q0 = queue@;
+        //@]
+        /*@{ bind_iterated_value2*//*@- for implied in self.get_closure_implied_items(implicator) *//*@|*/let __vx_implied = self.get_closure_implied_items(implicator);
+        let ghost all = __vx_implied@;
+        for implied in __vx_it: __vx_implied/*@}*/
+            //@[ C17 loop invariant
+            invariant __vx_it.seq() == all, queue@ == q0 + all.subrange(0, __vx_it.index@),
+            //@]
+        {
             queue.push_back(implied);
+            //@[ proof
+            proof { assert(all.subrange(0, __vx_it.index@ + 1) =~= all.subrange(0, __vx_it.index@).push(implied)); }
+            //@]
         }
+        //@[ proof
+        proof { assert(all.subrange(0, all.len() as int) =~= all); }
+        //@]
     }
 
-    fn get_closure_implied_items(&self, item: &StateItem) -> Vec<StateItem> {
+    fn get_closure_implied_items(&self, item: &StateItem) -> /*@[*/(r: /*@]*/Vec<StateItem>/*@[*/)/*@]*/
+        //@[ C17 C07 get_closure_implied_items: exactly the items one LR(1) closure step yields (lookaheads from the ADVANCED item)
+        requires self.wf(), item_wf(self.gr(), *item),
+        ensures forall|x: StateItem| #[trigger] r@.contains(x) <==> closure_step(self.gr(), *item, x),
+        //@]
+    {
+        //@[ proof
+        proof { lemma_item_rhs_len(self, *item); }
+        //@]
         match self.get_symbol_right_of_dot(item) {
             Some(Symbol::Nonterminal(name)) => {
                 let item_with_dot_advanced = StateItem {
@@ -403,13 +593,27 @@ impl ImmutContext<'_> {
         }
     }
 
-    fn get_augmented_first_after_dot(&self, item: &StateItem) -> AugmentedFirstSet {
+    fn get_augmented_first_after_dot(&self, item: &StateItem) -> /*@[*/(r: /*@]*/AugmentedFirstSet/*@[*/)/*@]*/
+        //@[ C17 C07 get_augmented_first_after_dot: FIRST(beta a) for the rest beta of the rule from the dot on and the item's lookahead a
+        requires self.wf(), item_wf(self.gr(), *item), item.rule_index is Augmented ==> item.dot >= 1,
+        ensures r.0.wf(),
+            forall|la: Lookahead| #[trigger] r.0@.contains(la) <==> in_first_la(self.gr(), rhs_from(self.gr(), *item, item.dot as int), item.lookahead, la),
+        //@]
+    {
+        //@[ proof
+        proof { lemma_rhs_covered(self, *item, item.dot as int); }
+        //@]
         let after_dot = self.get_symbol_sequence_after_dot(item);
         let first = self.get_first_of_symbol_sequence(after_dot);
         add_lookahead_if_needed(first, &item.lookahead)
     }
 
-    fn get_symbol_sequence_after_dot(&self, item: &StateItem) -> Vec<Symbol> {
+    fn get_symbol_sequence_after_dot(&self, item: &StateItem) -> /*@[*/(r: /*@]*/Vec<Symbol>/*@[*/)/*@]*/
+        //@[ C17 C07 get_symbol_sequence_after_dot: the rest of the rule from the dot on
+        requires (item.rule_index matches RuleIndex::Original(ri) ==> ri < self.rules@.len()), item.dot <= item_rhs(self.gr(), *item).len(),
+        ensures r@ == rhs_from(self.gr(), *item, item.dot as int),
+        //@]
+    {
         match item.rule_index {
             RuleIndex::Original(rule_index) => {
                 self.get_symbol_sequence_after_dot_for_original_rule(rule_index, item.dot)
@@ -422,12 +626,25 @@ impl ImmutContext<'_> {
         &self,
         rule_index: usize,
         dot: usize,
-    ) -> Vec<Symbol> {
+    ) -> /*@[*/(r: /*@]*/Vec<Symbol>/*@[*/)/*@]*/
+        //@[ C17 C07 get_symbol_sequence_after_dot_for_original_rule
+        requires rule_index < self.rules@.len(), dot <= rule_rhs(self.rules@[rule_index as int]).len(),
+        ensures r@ == rule_rhs(self.rules@[rule_index as int]).subrange(dot as int, rule_rhs(self.rules@[rule_index as int]).len() as int),
+        //@]
+    {
         let rule = &self.rules[rule_index];
         get_field_symbols_from_n_onwards(rule.fieldset, dot)
     }
 
-    fn get_symbol_sequence_after_dot_for_augmented_rule(&self, dot: usize) -> Vec<Symbol> {
+    fn get_symbol_sequence_after_dot_for_augmented_rule(&self, dot: usize) -> /*@[*/(r: /*@]*/Vec<Symbol>/*@[*/)/*@]*/
+        //@[ C17 get_symbol_sequence_after_dot_for_augmented_rule
+        requires dot <= 1,
+        ensures r@ == seq![Symbol::Nonterminal(self.start_nonterminal_name)].subrange(dot as int, 1),
+        //@]
+    {
+        //@[ proof
+        proof { assert forall|a: String, b: String| a@ == b@ implies a == b by { axiom_string_ext(a, b); } }
+        //@]
         if dot == 0 {
             vec![Symbol::Nonterminal(self.start_nonterminal_name.clone())]
         } else {
@@ -435,21 +652,71 @@ impl ImmutContext<'_> {
         }
     }
 
-    fn get_first_of_symbol_sequence(&self, symbols: impl IntoIterator<Item = Symbol>) -> FirstSet {
+    fn get_first_of_symbol_sequence(&self, symbols: impl IntoIterator<Item = Symbol>) -> /*@[*/(r: /*@]*/FirstSet/*@[*/)/*@]*/
+        //@[ C17 C04 C07 get_first_of_symbol_sequence: FIRST and nullability of a sentential form (least fixpoint); every lookup hits (no panic)
+        requires self.wf(), syms_covered(self.first_sets@, yielded(symbols)),
+        ensures r.terminals.wf(),
+            forall|t: DollarlessTerminalName| #[trigger] r.terminals@.contains(t) <==> seq_in_first(self.rules@, yielded(symbols), t),
+            r.contains_epsilon == seq_nullable(self.rules@, yielded(symbols)),
+        //@]
+    {
         let mut terminals: Oset<DollarlessTerminalName> = Oset::new();
         let mut contains_epsilon = true;
+        //@[ proof
+        let ghost fa = fa_of(self.first_sets@);
+        let ghost syms = yielded(symbols);
+        let ghost mut b: int = 0;
+        let ghost mut closed = false;
+        proof { crate::data::oset::lemma_empty_oset(terminals); }
+        //@]
 
-        for symbol in /*@{ T14_generic_iter*//*@- symbols *//*@|*/__vx_collect(symbols)/*@}*/ {
+        for symbol in /*@[*/__vx_it: /*@]*//*@{ T14_generic_iter*//*@- symbols *//*@|*/__vx_collect(symbols)/*@}*/
+            //@[ C17 loop invariant: contributions of the first b symbols
+            invariant_except_break
+                !closed, b == __vx_it.index@,
+            invariant
+                self.wf(), fa == fa_of(self.first_sets@), syms == yielded(symbols), syms_covered(self.first_sets@, syms),
+                __vx_it.seq() == syms,
+                terminals.wf(), seq_loop_inv(fa, syms, terminals@, contains_epsilon, b, closed),
+            ensures
+                closed || b == syms.len(),
+            //@]
+        {
+            //@[ proof
+            let ghost terms0 = terminals@;
+            proof { assert(syms[b] == symbol); }
+            //@]
             match symbol {
                 Symbol::Terminal(name) => {
                     terminals.insert(name);
                     contains_epsilon = false;
+                    //@[ proof
+                    proof {
+                        lemma_seq_loop_step(fa, syms, terms0, b, Set::<DollarlessTerminalName>::empty().insert(name), false);
+                        assert(terminals@ =~= terms0.union(Set::<DollarlessTerminalName>::empty().insert(name)));
+                        b = b + 1; closed = true;
+                    }
+                    //@]
                     break;
                 }
                 Symbol::Nonterminal(name) => {
+                    //@[ proof
+                    proof {
+                        let k = choose|k: String| #![trigger self.first_sets@.contains_key(k)] self.first_sets@.contains_key(k) && k@ == name@;
+                        axiom_string_ext(k, name);
+                        assert forall|k2: String| #[trigger] self.first_sets@.contains_key(k2) && k2@ == name@ implies k2 == name by { axiom_string_ext(k2, name); }
+                    }
+                    //@]
                     let nonterminal_first_set = self.first_sets.get(&name).unwrap();
                     /*@{ T13_extend_cloned*//*@- terminals.extend(nonterminal_first_set.terminals.iter().cloned()) *//*@|*/__vx_extend_cloned(&mut terminals, nonterminal_first_set)/*@}*/;
 
+                    //@[ proof
+                    proof {
+                        lemma_seq_loop_step(fa, syms, terms0, b, nonterminal_first_set.terminals@, nonterminal_first_set.contains_epsilon);
+                        assert(terminals@ =~= terms0.union(nonterminal_first_set.terminals@));
+                        b = b + 1; closed = !nonterminal_first_set.contains_epsilon;
+                    }
+                    //@]
                     if !nonterminal_first_set.contains_epsilon {
                         contains_epsilon = false;
                         break;
@@ -457,6 +724,12 @@ impl ImmutContext<'_> {
                 }
             }
         }
+        //@[ proof
+        proof {
+            lemma_seq_loop_done(fa, syms, terminals@, contains_epsilon, b, closed);
+            lemma_first_map_seq(self.first_sets@, self.rules@, syms);
+        }
+        //@]
 
         FirstSet {
             terminals,
@@ -464,14 +737,20 @@ impl ImmutContext<'_> {
         }
     }
 
-    //@[ T: iterator adapters outside the supported subset (body not verified; contract assumed)
+    //@[ T: flat_map / opaque `impl Iterator` are outside the supported subset (body not verified; contract assumed)
     #[verifier::external_body]
     //@]
     fn get_closure_implied_items_for_nonterminal(
         &self,
         nonterminal_name: String,
         lookaheads: AugmentedFirstSet,
-    ) -> Vec<StateItem> {
+    ) -> /*@[*/(r: /*@]*/Vec<StateItem>/*@[*/)/*@]*/
+        //@[ assumed contract: one fresh item [B -> . gamma, b] per rule of B and per lookahead b
+        ensures forall|x: StateItem| #[trigger] r@.contains(x) <==>
+            (x.rule_index is Original && x.rule_index->Original_0 < self.rules@.len()
+             && rule_lhs(self.rules@[x.rule_index->Original_0 as int]) == nonterminal_name@ && x.dot == 0 && lookaheads.0@.contains(x.lookahead)),
+        //@]
+    {
         lookaheads
             .0
             .into_iter()
@@ -521,7 +800,12 @@ impl ImmutContext<'_> {
             })
     }
 
-    fn get_symbol_right_of_dot(&self, item: &StateItem) -> Option<Symbol> {
+    fn get_symbol_right_of_dot(&self, item: &StateItem) -> /*@[*/(r: /*@]*/Option<Symbol>/*@[*/)/*@]*/
+        //@[ C17 C07 ImmutContext::get_symbol_right_of_dot
+        requires (item.rule_index matches RuleIndex::Original(ri) ==> ri < self.rules@.len()),
+        ensures r == after_dot(self.gr(), *item),
+        //@]
+    {
         match item.rule_index {
             RuleIndex::Original(rule_index) => {
                 self.get_symbol_right_of_dot_for_original_rule(item.dot, rule_index)
@@ -530,7 +814,14 @@ impl ImmutContext<'_> {
         }
     }
 
-    fn get_symbol_right_of_dot_for_augmented_rule(&self, dot: usize) -> Option<Symbol> {
+    fn get_symbol_right_of_dot_for_augmented_rule(&self, dot: usize) -> /*@[*/(r: /*@]*/Option<Symbol>/*@[*/)/*@]*/
+        //@[ C17 get_symbol_right_of_dot_for_augmented_rule: S' -> . start
+        ensures r == (if dot == 0 { Some(Symbol::Nonterminal(self.start_nonterminal_name)) } else { None }),
+        //@]
+    {
+        //@[ proof
+        proof { assert forall|a: String, b: String| a@ == b@ implies a == b by { axiom_string_ext(a, b); } }
+        //@]
         if dot == 0 {
             Some(Symbol::Nonterminal(self.start_nonterminal_name.clone()))
         } else {
@@ -542,13 +833,29 @@ impl ImmutContext<'_> {
         &self,
         dot: usize,
         rule_index: usize,
-    ) -> Option<Symbol> {
+    ) -> /*@[*/(r: /*@]*/Option<Symbol>/*@[*/)/*@]*/
+        //@[ C17 C07 get_symbol_right_of_dot_for_original_rule
+        requires rule_index < self.rules@.len(),
+        ensures r == (if dot < rule_rhs(self.rules@[rule_index as int]).len() { Some(rule_rhs(self.rules@[rule_index as int])[dot as int]) } else { None }),
+        //@]
+    {
         let rule = &self.rules[rule_index];
         get_nth_field_symbol(dot, rule.fieldset)
     }
 }
 
-fn add_lookahead_if_needed(first: FirstSet, lookahead: &Lookahead) -> AugmentedFirstSet {
+//@[ C17 ghost: lookahead set FIRST(beta a) as a predicate over a first set
+spec fn la_of_first(first: FirstSet, a: Lookahead, la: Lookahead) -> bool {
+    (la matches Lookahead::Terminal(t) && first.terminals@.contains(t)) || (first.contains_epsilon && la == a)
+}
+//@]
+
+fn add_lookahead_if_needed(first: FirstSet, lookahead: &Lookahead) -> /*@[*/(r: /*@]*/AugmentedFirstSet/*@[*/)/*@]*/
+    //@[ C17 add_lookahead_if_needed: FIRST(beta) as lookaheads, plus the item's own lookahead iff beta is nullable
+    requires first.terminals.wf(),
+    ensures r.0.wf(), forall|la: Lookahead| #[trigger] r.0@.contains(la) <==> la_of_first(first, *lookahead, la),
+    //@]
+{
     if first.contains_epsilon {
         augment_with_lookahead(first, lookahead)
     } else {
@@ -556,10 +863,16 @@ fn add_lookahead_if_needed(first: FirstSet, lookahead: &Lookahead) -> AugmentedF
     }
 }
 
-//@[ T: iterator adapters outside the supported subset (body not verified; contract assumed)
+//@[ T: `.map(Lookahead::Terminal).chain(once(..))` is outside the supported subset (body not verified; contract assumed)
 #[verifier::external_body]
 //@]
-fn augment_with_lookahead(first: FirstSet, lookahead: &Lookahead) -> AugmentedFirstSet {
+fn augment_with_lookahead(first: FirstSet, lookahead: &Lookahead) -> /*@[*/(r: /*@]*/AugmentedFirstSet/*@[*/)/*@]*/
+    //@[ assumed contract
+    requires first.terminals.wf(),
+    ensures r.0.wf(), forall|la: Lookahead| #[trigger] r.0@.contains(la) <==>
+        ((la matches Lookahead::Terminal(t) && first.terminals@.contains(t)) || la == *lookahead),
+    //@]
+{
     AugmentedFirstSet(
         first
             .terminals
@@ -570,10 +883,15 @@ fn augment_with_lookahead(first: FirstSet, lookahead: &Lookahead) -> AugmentedFi
     )
 }
 
-//@[ T: iterator adapters outside the supported subset (body not verified; contract assumed)
+//@[ T: `.map(Lookahead::Terminal)` (constructor as function value) is outside the supported subset (body not verified; contract assumed)
 #[verifier::external_body]
 //@]
-fn convert_first_set_to_augmented_as_is(first: FirstSet) -> AugmentedFirstSet {
+fn convert_first_set_to_augmented_as_is(first: FirstSet) -> /*@[*/(r: /*@]*/AugmentedFirstSet/*@[*/)/*@]*/
+    //@[ assumed contract
+    requires first.terminals.wf(),
+    ensures r.0.wf(), forall|la: Lookahead| #[trigger] r.0@.contains(la) <==> (la matches Lookahead::Terminal(t) && first.terminals@.contains(t)),
+    //@]
+{
     AugmentedFirstSet(
         first
             .terminals
@@ -596,7 +914,11 @@ fn is_core_subset(substate: &State, superstate: &State) -> bool {
     })
 }
 
-fn get_nth_field_symbol(n: usize, fieldset: &Fieldset) -> Option<Symbol> {
+fn get_nth_field_symbol(n: usize, fieldset: &Fieldset) -> /*@[*/(r: /*@]*/Option<Symbol>/*@[*/)/*@]*/
+    //@[ C17 get_nth_field_symbol: the n-th symbol of the right-hand side, None past the end
+    ensures r == (if n < fieldset_syms(*fieldset).len() { Some(fieldset_syms(*fieldset)[n as int]) } else { None }),
+    //@]
+{
     match fieldset {
         Fieldset::Empty => None,
         Fieldset::Named(named) => get_nth_field_symbol_from_named(n, named),
@@ -604,18 +926,31 @@ fn get_nth_field_symbol(n: usize, fieldset: &Fieldset) -> Option<Symbol> {
     }
 }
 
-fn get_nth_field_symbol_from_named(n: usize, named: &NamedFieldset) -> Option<Symbol> {
-    named.fields.get(n).map(|field| field.symbol.clone().into())
+fn get_nth_field_symbol_from_named(n: usize, named: &NamedFieldset) -> /*@[*/(r: /*@]*/Option<Symbol>/*@[*/)/*@]*/
+    //@[ C17 get_nth_field_symbol_from_named
+    ensures r == (if n < named.fields@.len() { Some(sym_of(named.fields@[n as int].symbol)) } else { None }),
+    //@]
+{
+    named.fields.get(n).map(|field/*@[*/: &NamedField/*@]*/| /*@[*/-> (o: Symbol) ensures o == sym_of(field.symbol) { /*@]*/field.symbol.clone().into()/*@[*/ }/*@]*/)
 }
 
-fn get_nth_field_symbol_from_tuple(n: usize, tuple: &TupleFieldset) -> Option<Symbol> {
+fn get_nth_field_symbol_from_tuple(n: usize, tuple: &TupleFieldset) -> /*@[*/(r: /*@]*/Option<Symbol>/*@[*/)/*@]*/
+    //@[ C17 get_nth_field_symbol_from_tuple
+    ensures r == (if n < tuple.fields@.len() { Some(sym_of(tuple_field_sym(tuple.fields@[n as int]))) } else { None }),
+    //@]
+{
     tuple
         .fields
         .get(n)
-        .map(|field| field.symbol().clone().into())
+        .map(|field/*@[*/: &TupleField/*@]*/| /*@[*/-> (o: Symbol) ensures o == sym_of(tuple_field_sym(*field)) { /*@]*/field.symbol().clone().into()/*@[*/ }/*@]*/)
 }
 
-fn get_field_symbols_from_n_onwards(fieldset: &Fieldset, n: usize) -> Vec<Symbol> {
+fn get_field_symbols_from_n_onwards(fieldset: &Fieldset, n: usize) -> /*@[*/(r: /*@]*/Vec<Symbol>/*@[*/)/*@]*/
+    //@[ C17 get_field_symbols_from_n_onwards: the symbols of the right-hand side from position n on
+    requires n <= fieldset_syms(*fieldset).len(),
+    ensures r@ == fieldset_syms(*fieldset).subrange(n as int, fieldset_syms(*fieldset).len() as int),
+    //@]
+{
     match fieldset {
         Fieldset::Empty => vec![],
         Fieldset::Named(named) => get_field_symbols_from_n_onwards_for_named(named, n),
@@ -623,21 +958,31 @@ fn get_field_symbols_from_n_onwards(fieldset: &Fieldset, n: usize) -> Vec<Symbol
     }
 }
 
-fn get_field_symbols_from_n_onwards_for_named(named: &NamedFieldset, n: usize) -> Vec<Symbol> {
+fn get_field_symbols_from_n_onwards_for_named(named: &NamedFieldset, n: usize) -> /*@[*/(r: /*@]*/Vec<Symbol>/*@[*/)/*@]*/
+    //@[ C17 get_field_symbols_from_n_onwards_for_named
+    requires n <= named.fields@.len(),
+    ensures r@ == fieldset_syms(Fieldset::Named(*named)).subrange(n as int, named.fields@.len() as int),
+    //@]
+{
     named
         .fields
         .iter()
         .skip(n)
-        .map(|field| field.symbol.clone().into())
+        .map(|field/*@[*/: &NamedField/*@]*/| /*@[*/-> (o: Symbol) ensures o == sym_of(field.symbol) { /*@]*/field.symbol.clone().into()/*@[*/ }/*@]*/)
         .collect()
 }
 
-fn get_field_symbols_from_n_onwards_for_tuple(tuple: &TupleFieldset, n: usize) -> Vec<Symbol> {
+fn get_field_symbols_from_n_onwards_for_tuple(tuple: &TupleFieldset, n: usize) -> /*@[*/(r: /*@]*/Vec<Symbol>/*@[*/)/*@]*/
+    //@[ C17 get_field_symbols_from_n_onwards_for_tuple
+    requires n <= tuple.fields@.len(),
+    ensures r@ == fieldset_syms(Fieldset::Tuple(*tuple)).subrange(n as int, tuple.fields@.len() as int),
+    //@]
+{
     tuple
         .fields
         .iter()
         .skip(n)
-        .map(|field| field.symbol().clone().into())
+        .map(|field/*@[*/: &TupleField/*@]*/| /*@[*/-> (o: Symbol) ensures o == sym_of(tuple_field_sym(*field)) { /*@]*/field.symbol().clone().into()/*@[*/ }/*@]*/)
         .collect()
 }
 
